@@ -87,7 +87,9 @@ Inductive case :=
 (* arrival times (ms) of successive reports at a viewer that asks for updates in bursts, and how many
    reports each websocket message carried: the rate limit keeps reports a second apart (600 ms are
    demanded of the arrival times, which jitter) and so one report per message *)
-| CRate (arrivals : list Z) (per_message : list N).
+| CRate (arrivals : list Z) (per_message : list N)
+(* a connection that has sent / received [count] messages: the "never" flags its reports showed *)
+| CTraffic (count : N) (never : list bool).
 
 Definition case_ok (c : case) : bool :=
   match c with
@@ -108,6 +110,10 @@ Definition case_ok (c : case) : bool :=
   | CParse s obs => option_eqb Z.eqb (parse_duration_bytes s) obs
   | CFps raw obs => fnum_eqb (fps_from_ns raw) obs
   | CHist evs obs => multiset_eqb ident_eqb (map ident_of_member (listed (hub_run evs))) obs
+  | CTraffic count never =>
+    let f := mk_frames count 0 lex_zero (Finite lex_zero) in
+    let model_never := bytes_eqb (rs_last (stats_of_frames fps_from_ns 1 f)) lit_Never in
+    forallb (Bool.eqb model_never) never
   | CRate arrivals per_message =>
     gaps_geb 600 arrivals
     && list_eqb N.eqb (map (fun g => N.of_nat (length g)) (messages arrivals (map (fun _ => 0%Z) arrivals))) per_message
@@ -123,6 +129,7 @@ Definition case_nontrivial (c : case) : bool :=
   | CFps raw _ => match raw with NonFinite => true | _ => false end
   | CHist evs _ => Nat.leb 2 (length (listed (hub_run evs)))
   | CRate arrivals _ => Nat.leb 3 (length arrivals)
+  | CTraffic count _ => 0 <? count
   end.
 
 Definition mismatches (cs : list case) : list N := mismatch_idx case_ok 0 cs.
